@@ -28,7 +28,7 @@ META = dict(
 import re
 import numpy as np
 from .lib import CoqFailure, coq_list, coq_nat
-from .pscommon import Once, run_nat_cases
+from .pscommon import Once, run_nat_cases, encode
 from . import gen
 
 TYPES = ("vacancy", "solute", "solute-vacancy", "omega0", "omega1", "omega2")
@@ -57,6 +57,8 @@ Definition run_tags (c : LL * LL * LL * LL * LL * LL * list (nat * nat) * list (
 """
 
 NUM = r"[+-]\d+\.\d{3}"
+# data ids that can never be produced by the model (kept below lib.coq_nat's limit of 5000)
+AMBIGUOUS, UNEXPLAINED = 4997, 4998
 
 
 def parse_u(s, dim):
@@ -191,8 +193,21 @@ def tags2preene_cases(ck, rng, V, label, d, base, ncases):
     names = {"vacancy": ("preV", "eneV"), "solute": ("preS", "eneS"), "solute-vacancy": ("preSV", "eneSV"), "omega0": ("preT0", "eneT0"),
              "omega1": ("preT1", "eneT1"), "omega2": ("preT2", "eneT2")}
     terms, metas = [], []
-    for k in range(ncases):
-        mode = rng.choice(["subset", "subset", "one-per-class", "dups", "dups+bogus", "dups-same", "dups-same", "dups-all-same", "bogus", "empty"])
+    import copy
+    pristine = copy.deepcopy(d)          # a calculator on which tags2preene has never been called
+    history, last_ud, last_thermo = [], None, None
+    # every calculator first sees a scripted call HISTORY (later calls leave classes without data that earlier calls supplied,
+    # identical calls are repeated, the caller overwrites arrays returned earlier), then random dictionaries
+    script = ["one-per-class", "subset", "repeat", "empty", "one-per-class", "edit-returned", "subset", "repeat"]
+    for k in range(ncases + len(script)):
+        mode = script[k] if k < len(script) else \
+            rng.choice(["subset", "subset", "one-per-class", "dups", "dups+bogus", "dups-same", "dups-same", "dups-all-same", "bogus", "empty"])
+        if mode == "edit-returned":
+            if last_thermo is not None:
+                for arr in last_thermo.values(): arr[...] = 77.0       # the caller scribbles over what it was given
+            mode = "subset"
+        repeat = (mode == "repeat" and last_ud is not None)
+        if mode == "repeat": mode = "subset"
         ud = {}
         order = []
         samegroups = []
@@ -217,6 +232,7 @@ def tags2preene_cases(ck, rng, V, label, d, base, ncases):
         order += bogus
         rng.shuffle(order)
         for t in order: ud[t] = (float(nr.uniform(0.5, 2.0)), float(nr.uniform(0.05, 1.0)))
+        if repeat: ud, samegroups = dict(last_ud), []
         for grp in samegroups:
             for t in grp: ud[t] = ud[grp[0]]
             ty0 = d.tagdicttype[grp[0]]
@@ -227,6 +243,19 @@ def tags2preene_cases(ck, rng, V, label, d, base, ncases):
             plain = d.tags2preene(dict(ud))
         except Exception as e:
             V("tags2preene raises %r" % (e,), {**base, "usertags": ud, "mode": mode}, key="c15-tags2preene-exception"); continue
+        history.append({"call": len(history), "mode": mode + ("(repeat)" if repeat else ""), "usertags": dict(ud)})
+        last_ud, last_thermo = dict(ud), thermo
+        rep_h = {**base, "mode": mode, "usertags": ud, "earlier_calls_on_this_calculator": history[-4:-1]}
+        # the same dictionary on a calculator that has never been used: results must not depend on earlier calls
+        try:
+            fresh = copy.deepcopy(pristine).tags2preene(dict(ud), VERBOSE=True)
+            bad_keys = [x for x in fresh[0] if x not in thermo or not np.array_equal(np.asarray(fresh[0][x]), np.asarray(thermo[x]))]
+            if bad_keys or list(fresh[1].items()) != list(missing.items()) or fresh[2] != dups or fresh[3] != bad:
+                V("tags2preene on a calculator used before differs from a fresh calculator (call %d on this object; arrays %s)" % (len(history) - 1, bad_keys),
+                  {**rep_h, "this_object": {x: np.asarray(thermo[x]).tolist() for x in thermo}, "fresh_calculator": {x: np.asarray(fresh[0][x]).tolist() for x in fresh[0]}},
+                  key="c15-depends-on-earlier-calls")
+        except Exception as e:
+            V("tags2preene on a fresh copy raises %r" % (e,), rep_h, key="c15-tags2preene-exception")
         # non-verbose output must be the same dictionary
         if set(plain) != set(thermo) or any(not np.array_equal(plain[x], thermo[x]) for x in plain):
             V("tags2preene with and without VERBOSE differ", {**base, "usertags": ud}, key="c15-verbose-differs")
@@ -248,26 +277,33 @@ def tags2preene_cases(ck, rng, V, label, d, base, ncases):
                 cand = sorted(set(uid[t] for t, v in ud.items() if v == pair))
                 # (the LIMB value of an omega2 class can coincide with a supplied omega0 pair: test LIMB first)
                 if ty in ("omega1", "omega2") and pair == (float(limb[pn][i]), float(limb[en][i])): row.append((1000 if ty == "omega1" else 2000) + i)
-                elif cand: row.append(cand[0] if len(cand) == 1 else 7777)
+                elif cand: row.append(cand[0] if len(cand) == 1 else AMBIGUOUS)
                 elif ty not in ("omega1", "omega2") and pair == (1.0, 0.0): row.append(0)
-                else: row.append(8888)
+                else:
+                    # a value that is neither supplied data, nor the neutral default, nor the LIMB value: a violation, not a harness problem
+                    row.append(UNEXPLAINED)
+                    V("tags2preene returns a value for class %s[%d] that is neither supplied data, the default (1, 0) nor the LIMB value: %r"
+                      % (ty, i, pair), {**rep_h, "type": ty, "class": i, "value": pair, "supplied_members": [t for t in d.tags[ty][i] if t in ud]},
+                      key="c15-unexplained-value")
             arrays.append(row)
         def tid(t):
             if ids.get(t) is None: ids[t] = len(ids) + 1
             return ids[t]
         for t in ud: tid(t)
-        miss_flat = [[ids[t] for t in cls] for ty in TYPES for cls in missing.get(ty, [])]
         if any(ty not in TYPES for ty in missing) or any(len(v) == 0 for v in missing.values()):
             V("missingdict has unknown types or empty entries", {**base, "missing": {k2: len(v) for k2, v in missing.items()}}, key="c15-missingdict-shape")
-        term = "(%s, %s, %s, %s, %s, %s, %s, %s, %s, %s, %s)" % (
-            *[coq_list([coq_list([coq_nat(x) for x in cls]) for cls in classes[ty]]) for ty in TYPES],
-            coq_list(["(%s, %s)" % (coq_nat(ids[t]), coq_nat(uid[t])) for t in ud]),
-            coq_list([coq_list([coq_nat(x) for x in row]) for row in arrays]),
-            coq_list([coq_list([coq_nat(x) for x in cls]) for cls in miss_flat]),
-            coq_list([coq_list([coq_nat(ids[t]) for t in dl]) for dl in dups]),
-            coq_list([coq_nat(ids[t]) for t in bad]))
-        if max(ids.values()) >= 4900: continue
-        terms.append(term); metas.append((label, mode, ud, {x: np.asarray(thermo[x]).tolist() for x in thermo}, missing, dups, bad))
+        def build_term():
+            miss_flat = [[ids[t] for t in cls] for ty in TYPES for cls in missing.get(ty, [])]
+            return "(%s, %s, %s, %s, %s, %s, %s, %s, %s, %s, %s)" % (
+                *[coq_list([coq_list([coq_nat(x) for x in cls]) for cls in classes[ty]]) for ty in TYPES],
+                coq_list(["(%s, %s)" % (coq_nat(ids[t]), coq_nat(uid[t])) for t in ud]),
+                coq_list([coq_list([coq_nat(x) for x in row]) for row in arrays]),
+                coq_list([coq_list([coq_nat(x) for x in cls]) for cls in miss_flat]),
+                coq_list([coq_list([coq_nat(ids[t]) for t in dl]) for dl in dups]),
+                coq_list([coq_nat(ids[t]) for t in bad]))
+        term = None if max(v for v in ids.values() if v is not None) >= 4900 else encode(V, "c15-unencodable-output", {**rep_h, "missing": missing, "duplicates": dups, "bad": bad}, build_term) if True else None
+        if term is not None:
+            terms.append(term); metas.append((label, mode, ud, {x: np.asarray(thermo[x]).tolist() for x in thermo}, missing, dups, bad))
         ck.case(key=("t2p", label, mode, sorted(ud.items())), nontrivial=len(ud) > 0, kind="t2p:" + mode,
                 sample={"calculator": label, "mode": mode, "usertags": ud, "missing": {k2: len(v) for k2, v in missing.items()}, "duplicates": dups, "bad": bad} if k < 1 else None)
         # ---- direct evaluator of the property's statements
